@@ -1,6 +1,7 @@
 package props
 
 import (
+	"bytes"
 	"fmt"
 	"math/rand/v2"
 	"strings"
@@ -454,6 +455,13 @@ func runC05(env *Env, s Scenario) {
 			}
 			// success must be complete success
 			checkSendResults(env, sr, i, "success-with-wrong-or-partial-output")
+			if (op.Kind == "interactive" || op.Kind == "netinteractive") && sc.F.StallAt >= 0 && (sr.ResumeT <= 0 || rec.End < sr.ResumeT) {
+				// (no expected result by construction for dialogues: what the device had sent in
+				// answer to the operation's writes must all have been delivered, blanks apart)
+				if rest := bytes.TrimSpace(sr.Tr.Out()[min(rec.DeliveredAtEnd, rec.EmittedAtEnd):rec.EmittedAtEnd]); len(rest) > 0 {
+					env.Fail("success-with-wrong-or-partial-output", op.Kind, "op %d (%s) reported success when only %d of the %d bytes of the exchange had been delivered (device silent after byte %d); undelivered: %q", i, op.Kind, rec.DeliveredAtEnd, rec.EmittedAtEnd, sc.F.StallAt, firstN(string(rest), 120))
+				}
+			}
 			if op.TimeoutUS < 0 && sr.ResumeT > 0 && rec.End >= sr.ResumeT && sc.F.StallAt >= 0 && rec.Start < sr.ResumeT {
 				env.Probe("zero-timeout-op-waited-for-the-device")
 				if rec.End-rec.Start < 3*sc.connTimeout() {
